@@ -576,12 +576,17 @@ func solveOne(o *Obligation, file string, altFiles []string, secs int, thorough 
 		}
 		r2 := runSolver(other, file, secs)
 		total += r2.secs
-		if r2.verdict == "unsat" {
+		switch {
+		case r2.verdict == "unsat":
 			r3 := runSolver(solvers[0], file, secs) // ask the newer z3 once more for the record
 			total += r3.secs
 			if r3.verdict != "sat" {
 				r = solveResult{verdict: "unsat", solver: r2.solver + "(refutation by " + r.solver + " not reproduced)", secs: r2.secs, output: r2.output}
 			}
+		case r2.verdict != "sat" && !strings.HasPrefix(r.solver, "z3-new"):
+			// the old z3's refutation could not be confirmed either way: undecided (a ledger obligation is then retried
+			// with a larger budget before anything is reported)
+			r = solveResult{verdict: "unknown", solver: "all", secs: r2.secs, output: "refutation by " + r.solver + " not confirmed by " + r2.solver + " (" + r2.verdict + ")"}
 		}
 	}
 	o.Solver = r.solver
